@@ -41,6 +41,7 @@ var (
 	TUint16  = reflect.TypeOf(uint16(0))
 	TUint32  = reflect.TypeOf(uint32(0))
 	TUint64  = reflect.TypeOf(uint64(0))
+	TUintptr = reflect.TypeOf(uintptr(0))
 	TFloat32 = reflect.TypeOf(float32(0))
 	TFloat64 = reflect.TypeOf(float64(0))
 	TTime    = reflect.TypeOf(time.Time{})
@@ -298,7 +299,7 @@ func fillLeaf(rng *rand.Rand, v reflect.Value, o ValueOpts) {
 			x = int64(rng.Intn(20)) - 5
 		}
 		v.SetInt(x)
-	case reflect.Uint, reflect.Uint8, reflect.Uint16, reflect.Uint32, reflect.Uint64:
+	case reflect.Uint, reflect.Uint8, reflect.Uint16, reflect.Uint32, reflect.Uint64, reflect.Uintptr:
 		bits := v.Type().Bits()
 		x := rng.Uint64() >> uint(64-bits)
 		if rng.Intn(3) == 0 {
